@@ -245,6 +245,15 @@ fn parse_duration(s: &str) -> Result<Duration, HifitimeError> {
 }
 
 fn parse_offset(s: &str) -> Result<Duration, HifitimeError> {
+    // An offset is made of ASCII digits and separators only. Anything else, e.g. "-60 μs", is a duration with a unit:
+    // slicing it at fixed byte positions would read "-60" as hours and silently ignore the rest.
+    if !s.is_ascii() {
+        return Err(HifitimeError::Parse {
+            source: ParsingError::InvalidTimezone,
+            details: "invalid timezone format [+/-]HH:MM",
+        });
+    }
+
     let indexes: (usize, usize, usize) = (1, 3, 5);
     let colon = if s.len() == 3 || s.len() == 5 || s.len() == 7 {
         // There is a zero or even number of separators between the hours, minutes, and seconds.
